@@ -116,7 +116,8 @@ impl Out {
 			j.push_str(&format!("\n    \"{}\"", json_escape(s)));
 		}
 		j.push_str("\n  ],\n  \"failures\": [");
-		// At most 60 failures per class are written out (shortest first), so
+		let cap = std::env::var("XTVERIF_MAX_FAILURES").ok().and_then(|v| v.parse().ok()).unwrap_or(60usize);
+		// At most `cap` (60) failures per class are written out (shortest first), so
 		// that an unlisted failure is never hidden behind known findings.
 		let mut by_class: BTreeMap<&str, Vec<&Failure>> = BTreeMap::new();
 		for fl in &self.failures {
@@ -125,7 +126,7 @@ impl Out {
 		let mut shown: Vec<&Failure> = vec![];
 		for (_, v) in by_class.iter_mut() {
 			v.sort_by_key(|f| f.detail.len());
-			shown.extend(v.iter().take(60));
+			shown.extend(v.iter().take(cap));
 		}
 		for (i, fl) in shown.iter().enumerate() {
 			if i > 0 {
